@@ -27,7 +27,7 @@ def run(env, res):
                 'yaml layout: flow style, JSON, first step on line 1, other indentation); a case is '
                 'non-trivial when the model accepts it and it terminates; distinct by canonical program text')
     directed = [('c05', fo.c05_family, env.n(400, 100000))]
-    flowcheck.run_streams(env, res, directed, env.n(500, 20000), weights={'fail': 3, 'set': 2},
+    flowcheck.run_streams(env, res, directed, env.n(500, 100000), weights={'fail': 3, 'set': 2},
                           random_monitor=flowcheck.monitor_all)
 
 
